@@ -236,7 +236,16 @@ func mkPin(w *world, i int, kind string, direct bool) *api.Pin {
 		p.Allocations = []peer.ID{}
 	case "meta":
 		p.Type = api.MetaType
-		p.ReplicationFactorMin, p.ReplicationFactorMax = -1, -1
+		// a meta entry carries the replication factors the content was added with
+		// (sharded adds with --rmin/--rmax) and never has allocations
+		switch (int(w.plan.Seed) + i) % 3 {
+		case 0:
+			p.ReplicationFactorMin, p.ReplicationFactorMax = -1, -1
+		case 1:
+			p.ReplicationFactorMin, p.ReplicationFactorMax = 2, 2
+		default:
+			p.ReplicationFactorMin, p.ReplicationFactorMax = 1, 3
+		}
 		ref := w.cids[(i+1)%len(w.cids)]
 		p.Reference = &ref
 		p.MaxDepth = 0
